@@ -792,7 +792,7 @@ func (s *TO2Server) ovNextEntry(ctx context.Context, msg io.Reader) (*ovEntry, e
 	}
 
 	// Return entry
-	if len(ov.Entries) < nextEntry.OVEntryNum {
+	if nextEntry.OVEntryNum < 0 || nextEntry.OVEntryNum >= len(ov.Entries) {
 		return nil, fmt.Errorf("invalid ownership voucher entry index %d", nextEntry.OVEntryNum)
 	}
 	return &ovEntry{
